@@ -862,3 +862,79 @@ func ecdheUnit(suite uint16, libIsClient bool) harness.Unit {
 		}
 	}}
 }
+
+// gmTicketIdentityUnit: the same on the GMSSL path. Connection 1 obtains a ticket; connection 2
+// presents it while offering another suite than the session's (so that a full handshake follows),
+// or the same suite under a policy that has become verifying, together with an untrusted client
+// certificate and a valid proof of its key.
+func gmTicketIdentityUnit() harness.Unit {
+	return harness.Unit{Name: "gmssl-ticket-then-untrusted-identity", Run: func(c *harness.Ctx) {
+		p := tlsk.Get()
+		genuine := tlsk.ClientIdentity()
+		rogue := gmref.Identity{Certs: [][]byte{p.ClientUntrusted.Certificate[0]}, SignKey: p.ClientKey.D}
+		both := []uint16{gmtls.GMTLS_ECC_SM4_CBC_SM3, gmtls.GMTLS_ECC_SM4_GCM_SM3}
+		for _, s1 := range both {
+			for _, s2 := range both {
+				for _, explicit := range []bool{true, false} {
+					for _, pol1 := range []gmtls.ClientAuthType{gmtls.RequestClientCert, gmtls.RequireAnyClientCert, gmtls.RequireAndVerifyClientCert} {
+						for _, pol2 := range []gmtls.ClientAuthType{gmtls.VerifyClientCertIfGiven, gmtls.RequireAndVerifyClientCert} {
+							sc := &gmtls.Config{GMSupport: &gmtls.GMSupport{}, Certificates: []gmtls.Certificate{p.Sign, p.Enc}, Time: tlsk.FixedTime, Rand: wire.NewRand(37), ClientAuth: pol1, ClientCAs: p.Roots}
+							if explicit {
+								sc.CipherSuites = both
+							}
+							sc.SetSessionTicketKeys([][32]byte{{3, 1, 4}})
+							id1 := genuine
+							if pol1 != gmtls.RequireAndVerifyClientCert {
+								id1 = rogue // accepted without verification under these policies
+							}
+							var first *gmref.Peer
+							o1 := tlsk.RunLibVsRef(sc, false, tlsk.LibApp(false), id1, 152, func(q *gmref.Peer) {
+								q.Suites = []uint16{s1}
+								q.OfferTicket = true
+								first = q
+							}, &gmref.Script{SendClientCert: true, Data: tlsk.PingPong(true)}, nil)
+							if !o1.Lib.Complete || first == nil {
+								c.Note("ticket-issuing GMSSL connection failed (suite=%04x pol1=%d explicit=%v): %s", s1, pol1, explicit, o1.Describe())
+								c.Add("harness_divergences", 1)
+								continue
+							}
+							if first.NewTicket == nil {
+								c.Add("no_ticket_issued", 1)
+								continue
+							}
+							ticket, master := first.NewTicket, first.Master
+							sc.ClientAuth = pol2
+							setup := func(q *gmref.Peer) {
+								q.Suites = []uint16{s2}
+								q.OfferTicket = true
+								q.Ticket, q.ResumeMaster, q.ResumeSuite = ticket, master, s1
+							}
+							o := tlsk.RunLibVsRef(sc, false, tlsk.LibApp(false), rogue, 153, setup, &gmref.Script{SendClientCert: true, Data: tlsk.PingPong(true)}, nil)
+							tag := fmt.Sprintf("GMSSL ticket issued with suite %04x under ClientAuth=%d (server suites explicit=%v) to a %s certificate; next connection offers suite %04x under ClientAuth=%d with the ticket and an untrusted certificate with a valid proof", s1, pol1, explicit, map[bool]string{true: "genuine", false: "untrusted"}[pol1 == gmtls.RequireAndVerifyClientCert], s2, pol2)
+							c.Add("evaluations", 1)
+							c.DistinctS("nontrivial", tag)
+							if c.WantSample() {
+								c.Sample(tag)
+							}
+							legit := pol1 == gmtls.RequireAndVerifyClientCert && o.Lib.DidResume && s1 == s2
+							if o.Lib.Panic != nil {
+								c.Violate("panic:gmssl-ticket-identity:"+site(o.Lib.Stack), fmt.Sprintf("[%s] %v\n%s", tag, o.Lib.Panic, clip(o.Lib.Stack, 1200)), nil, tag)
+								continue
+							}
+							if o.LibStuck || o.Horizon {
+								c.Violate("hang:gmssl-ticket-identity", fmt.Sprintf("[%s] %s", tag, o.Describe()), nil, tag)
+								continue
+							}
+							if o.Lib.Complete && !legit {
+								c.Violate("accepts:gmssl-ticket-then-untrusted-identity", fmt.Sprintf("[%s] the verifying server completes (resumed=%v) and reports %d peer certificates: %s", tag, o.Lib.DidResume, len(o.Lib.PeerCerts), o.Describe()), nil, tag)
+							}
+							if o.Lib.Complete && legit && len(o.Lib.PeerCerts) > 0 && string(o.Lib.PeerCerts[0]) != string(p.Client.Certificate[0]) {
+								c.Violate("gmssl-ticket-identity:resumed-with-other-identity", fmt.Sprintf("[%s] resumed session reports another peer certificate", tag), nil, tag)
+							}
+						}
+					}
+				}
+			}
+		}
+	}}
+}
